@@ -10,7 +10,7 @@ Tokens == <<" ", "a", "ab", "b*", "a?", "AND", "OR", "NOT", "ANDNOT", "ANDMAYBE"
             "(", ")", "[", "]", "{", "}", "<dquote>", "'", ":", "^", "~", "*", "?", "title:", "num:",
             "when:", "flag:", "ng:", "price:", "nosuch:", "*:", "2", "-3", "1.5", "-", "+", "<", ">=",
             "<backslash>", "/", ".", "<eacute>", "<emoji>", "<tab>", "2010-01-02", "yes", "now", "&", "|", "!",
-            "^2", "~2", "~">>
+            "^2", "~2", "~", "st:", "dec:", "99991231235959999999", "tag:", "ngw:">>
 
 \* grammar-aware inputs: every sequence of at most N_EDGE tokens placed at the edge of a group, a field
 \* group, a range, a phrase, an operator's operand position, or after a typed field prefix
